@@ -18,7 +18,7 @@ INSTS = {
     "C01": ALL, "C02": ALL, "C03": ALL, "C04": ALL, "C05": ALL, "C17": ALL,
     "C07": RELAYS + TAKES,
     "C08": MERGE, "C09": CONCAT, "C10": COMBINE, "C11": FLATTEN, "C12": SHARE,
-    "C14": RELAYS + TAKES + CONCAT + FLATTEN + FROMITER,
+    "C14": RELAYS + [t for t in TAKES if t[0] != "take:0"] + CONCAT + FLATTEN + FROMITER,   # take(0) is outside the property (n >= 1)
     "C15": FROMITER,
     "C18": MERGE + COMBINE,
     "C19": TAKES,
@@ -95,3 +95,8 @@ def assumptions(prop):
         "C20": ["what the tracing crate does with a subscriber installed is outside the model; Debug implementations are effect-free"],
     }
     return COMMON + extra.get(prop, [])
+
+
+def model_compare(prop):
+    """C20's theorems are generic in the machine and its tie is the three-build comparison: a drift of some operator model is not C20's business"""
+    return prop not in ("C20",)
